@@ -34,11 +34,11 @@ type Op struct {
 
 // Runner replays a behaviour on a MemDB behind a faultdb.
 type Runner struct {
-	B     *model.Behaviour
-	Pal   *palette.Palette
-	Cache int
-	Flush int
-	Probe bool // run the read probes after every step
+	B          *model.Behaviour
+	Pal        *palette.Palette
+	Cache      int
+	Flush      int
+	Probe      bool // run the read probes after every step
 	SnapImages bool // copy the store after every physical write (crash images)
 
 	Mem  *dbm.MemDB
@@ -274,7 +274,10 @@ func (r *Runner) probes(i int, s *model.Step, stopAfterOps int) bool {
 	}
 	if add("w.Iterate", func() (string, error) {
 		var ps [][2][]byte
-		_, err := t.Iterate(func(k, v []byte) bool { ps = append(ps, [2][]byte{append([]byte(nil), k...), append([]byte(nil), v...)}); return false })
+		_, err := t.Iterate(func(k, v []byte) bool {
+			ps = append(ps, [2][]byte{append([]byte(nil), k...), append([]byte(nil), v...)})
+			return false
+		})
 		return pairsText(ps), err
 	}) {
 		return true
@@ -336,7 +339,10 @@ func (r *Runner) probes(i int, s *model.Step, stopAfterOps int) bool {
 				fmt.Fprint(&sb, hx(v), h, idx, hx(v2), "|")
 			}
 			var ps [][2][]byte
-			if _, err := it.Iterate(func(k, v []byte) bool { ps = append(ps, [2][]byte{append([]byte(nil), k...), append([]byte(nil), v...)}); return false }); err != nil {
+			if _, err := it.Iterate(func(k, v []byte) bool {
+				ps = append(ps, [2][]byte{append([]byte(nil), k...), append([]byte(nil), v...)})
+				return false
+			}); err != nil {
 				return "", err
 			}
 			sb.WriteString(pairsText(ps))
@@ -515,48 +521,48 @@ func SortedKinds(m map[string]int) []string {
 func matchState(t *iavl.MutableTree, lv int64, st *State, pal *palette.Palette) string {
 	h := hashref.Hasher{Key: pal.Key, Value: pal.Value}
 
-		if lv != st.Latest {
-			return fmt.Sprintf("latest %d != %d", lv, st.Latest)
-		}
-		av := t.AvailableVersions()
-		var want []int
-		if st.Latest > 0 {
-			for v := st.First; v <= st.Latest; v++ {
-				want = append(want, int(v))
-			}
-		}
-		if fmt.Sprint(av) != fmt.Sprint(want) && !(len(av) == 0 && len(want) == 0) {
-			return fmt.Sprintf("available %v != %v", av, want)
-		}
-		for v, tr := range st.Saved {
-			it, err := t.GetImmutable(v)
-			if err != nil {
-				return fmt.Sprintf("version %d: %v", v, err)
-			}
-			if !bytes.Equal(it.Hash(), h.Hash(tr, v+1)) {
-				return fmt.Sprintf("version %d: hash differs", v)
-			}
-			var got []string
-			if _, err := it.Iterate(func(k, val []byte) bool { got = append(got, fmt.Sprintf("%x=%x", k, val)); return false }); err != nil {
-				return fmt.Sprintf("version %d: iterate: %v", v, err)
-			}
-			var exp []string
-			for _, l := range tr.Leaves() {
-				exp = append(exp, fmt.Sprintf("%x=%x", pal.Key(l.K), pal.Value(l.V)))
-			}
-			if strings.Join(got, ";") != strings.Join(exp, ";") {
-				return fmt.Sprintf("version %d: contents differ", v)
-			}
-			// every read path agrees: the indexed Get and the walk
-			for _, l := range tr.Leaves() {
-				val, err := it.Get(pal.Key(l.K))
-				if err != nil || !bytes.Equal(val, pal.Value(l.V)) {
-					return fmt.Sprintf("version %d: Get(%x) = %x, %v", v, pal.Key(l.K), val, err)
-				}
-			}
-		}
-		return ""
+	if lv != st.Latest {
+		return fmt.Sprintf("latest %d != %d", lv, st.Latest)
 	}
+	av := t.AvailableVersions()
+	var want []int
+	if st.Latest > 0 {
+		for v := st.First; v <= st.Latest; v++ {
+			want = append(want, int(v))
+		}
+	}
+	if fmt.Sprint(av) != fmt.Sprint(want) && !(len(av) == 0 && len(want) == 0) {
+		return fmt.Sprintf("available %v != %v", av, want)
+	}
+	for v, tr := range st.Saved {
+		it, err := t.GetImmutable(v)
+		if err != nil {
+			return fmt.Sprintf("version %d: %v", v, err)
+		}
+		if !bytes.Equal(it.Hash(), h.Hash(tr, v+1)) {
+			return fmt.Sprintf("version %d: hash differs", v)
+		}
+		var got []string
+		if _, err := it.Iterate(func(k, val []byte) bool { got = append(got, fmt.Sprintf("%x=%x", k, val)); return false }); err != nil {
+			return fmt.Sprintf("version %d: iterate: %v", v, err)
+		}
+		var exp []string
+		for _, l := range tr.Leaves() {
+			exp = append(exp, fmt.Sprintf("%x=%x", pal.Key(l.K), pal.Value(l.V)))
+		}
+		if strings.Join(got, ";") != strings.Join(exp, ";") {
+			return fmt.Sprintf("version %d: contents differ", v)
+		}
+		// every read path agrees: the indexed Get and the walk
+		for _, l := range tr.Leaves() {
+			val, err := it.Get(pal.Key(l.K))
+			if err != nil || !bytes.Equal(val, pal.Value(l.V)) {
+				return fmt.Sprintf("version %d: Get(%x) = %x, %v", v, pal.Key(l.K), val, err)
+			}
+		}
+	}
+	return ""
+}
 
 // MatchDetail opens the image and says why it does not match the state ("" if it does).
 func MatchDetail(img map[string][]byte, st *State, pal *palette.Palette, fast bool) string {
